@@ -15,6 +15,7 @@ fn report(vios: &mut VioSet, e: &Enc, source: Source, repl: bool, units: &[u32],
         .set("encoding", J::s(e.name))
         .set("source", J::s(if source == Source::Utf8 { "utf8" } else { "utf16" }))
         .set("sink", J::s("slice"))
+        .set("loop", J::Bool(true))
         .set("repl", J::Bool(repl))
         .set("calls", J::Arr(vec![crate::xenc::ECallRec { units: units.to_vec(), cap: units.len() * 12 + 64, last: true, fill: 0, dalign: 0, fresh: true, method: 2 }.to_json()]))
         .set("detail", J::obj().set("message", J::s(&msg)));
